@@ -296,6 +296,58 @@ fn run_table(ops: &[Op]) {
     }
 }
 
+// ---------------------------------------------------------------- equality / hashing of heap values
+fn run_object_laws(ops: &[Op]) {
+    use std::hash::{Hash, Hasher};
+    let hash_of = |v: &Value| { let mut h = std::collections::hash_map::DefaultHasher::new(); v.hash(&mut h); h.finish() };
+    let mut vm = Vm::new(()).unwrap();
+    // two tables with the same entries in the same insertion order but a different growth history
+    let mut g1 = vm.init_table().unwrap();
+    let mut g2 = vm.init_table().unwrap();
+    {
+        let t2 = g2.as_table_mut().unwrap();
+        for d in 0..24i64 { t2.insert(Value::Integer(1000 + d), Value::Nil).unwrap(); }
+        for d in 0..24i64 { t2.remove(Value::Integer(1000 + d)).unwrap(); }
+    }
+    let mut strings = vec![];
+    for (step, &(op, k, v)) in ops.iter().enumerate() {
+        let key = if op % 3 == 0 {
+            let s1 = vm.init_string(&format!("k{}", k % 5)).unwrap();
+            let s2 = vm.init_string(&format!("k{}", k % 5)).unwrap();
+            let (a, b) = (Value::Object(s1.into_inner()), Value::Object(s2.into_inner()));
+            strings.push((a, b));
+            if a != b { fail("object_laws", ops, step, format!("strings with equal text differ")); }
+            if hash_of(&a) != hash_of(&b) { fail("object_laws", ops, step, format!("equal strings hash differently")); }
+            (a, b)
+        } else { (Value::Integer(k as i64), Value::Integer(k as i64)) };
+        g1.as_table_mut().unwrap().insert(key.0, Value::Integer(v)).unwrap();
+        g2.as_table_mut().unwrap().insert(key.1, Value::Integer(v)).unwrap();
+    }
+    let a: Value = Value::from(g1);
+    let b: Value = Value::from(g2);
+    let last = ops.len().saturating_sub(1);
+    if a != b { fail("object_laws", ops, last, "tables with the same entries in the same order compare unequal".into()); }
+    if (b == a) != (a == b) { fail("object_laws", ops, last, "equality is not symmetric".into()); }
+    if hash_of(&a) != hash_of(&b) { fail("object_laws", ops, last, "equal tables hash differently".into()); }
+    if a < b || a > b { fail("object_laws", ops, last, "equal tables are ordered".into()); }
+    // a third table that differs from the first in one value only: whatever `==` says, equal must imply equal hashes
+    if let Some(&(_, k, v)) = ops.iter().rev().find(|o| o.0 % 3 != 0) {
+        let mut g3 = vm.init_table().unwrap();
+        for &(op, k2, v2) in ops.iter() {
+            if op % 3 != 0 { g3.as_table_mut().unwrap().insert(Value::Integer(k2 as i64), Value::Integer(v2)).unwrap(); }
+        }
+        let mut g4 = vm.init_table().unwrap();
+        for &(op, k2, v2) in ops.iter() {
+            if op % 3 != 0 { g4.as_table_mut().unwrap().insert(Value::Integer(k2 as i64), Value::Integer(v2)).unwrap(); }
+        }
+        g4.as_table_mut().unwrap().insert(Value::Integer(k as i64), Value::Integer(v + 1000)).unwrap();
+        let c: Value = Value::from(g3);
+        let d: Value = Value::from(g4);
+        if c == d && hash_of(&c) != hash_of(&d) { fail("object_laws", ops, last, "tables that compare equal hash differently (one value differs)".into()); }
+        if c == d { fail("object_laws", ops, last, "tables with a different value under the same key compare equal".into()); }
+    }
+}
+
 fn dispatch(unit: &str, ops: &[Op], variant: u64) {
     VARIANT.store(variant, std::sync::atomic::Ordering::Relaxed);
     match unit {
@@ -304,6 +356,7 @@ fn dispatch(unit: &str, ops: &[Op], variant: u64) {
         "value_stack" => run_value_stack(ops, [1usize, 2, 3, 4, 6][(variant % 5) as usize]),
         "bounded_stack" => run_bounded_stack(ops, [0usize, 1, 2, 3, 5][(variant % 5) as usize]),
         "cao_lang_table" => run_table(ops),
+        "object_laws" => run_object_laws(ops),
         _ => { eprintln!("unknown unit {unit}"); std::process::exit(2); }
     }
 }
